@@ -384,7 +384,7 @@ func initBigFloat() {
 
 	Def(
 		c,
-		"to_big_float",
+		"to_bigfloat",
 		func(_ *Thread, args []value.Value) (value.Value, value.Value) {
 			self := args[0]
 			return self, value.Undefined
